@@ -162,7 +162,7 @@ pub fn eval_path_in_child(file: &FsPath) -> ChildResult {
         let _ = std::io::Read::read_to_string(&mut se, &mut s);
         s
     });
-    let st = wait_timeout(&mut child, 60, &activity);
+    let st = wait_timeout(&mut child, 240, &activity);
     let out = h1.join().unwrap_or_default();
     let err = h2.join().unwrap_or_default();
     for line in out.lines() {
@@ -173,7 +173,7 @@ pub fn eval_path_in_child(file: &FsPath) -> ChildResult {
         }
     }
     let why = match st {
-        None => "timeout (60 s): call did not return".to_string(),
+        None => "timeout (240 s without a sign of life): call did not return".to_string(),
         Some(s) => format!("{:?}", s),
     };
     let last = err
@@ -732,7 +732,7 @@ pub fn check_main(cc: &CheckCfg) -> i32 {
     let mut kinds: BTreeMap<String, u64> = BTreeMap::new();
     let mut profiles: BTreeMap<String, u64> = BTreeMap::new();
     let mut digest_all: u64 = 0;
-    let hang_limit = Duration::from_secs(std::env::var("RSIM_HANG_S").ok().and_then(|s| s.parse().ok()).unwrap_or(90));
+    let hang_limit = Duration::from_secs(std::env::var("RSIM_HANG_S").ok().and_then(|s| s.parse().ok()).unwrap_or(300));
     let mut live = cc.workers as usize;
     while live > 0 {
         match rx.recv_timeout(Duration::from_millis(500)) {
